@@ -11,7 +11,7 @@ impl Check for C03 {
         "C03"
     }
     fn cases(&self, tier: Tier) -> u64 {
-        tier.pick(120_000, 6_000_000)
+        tier.pick(120_000, 10_000_000)
     }
     fn run(&self, ctx: &Ctx, idx: u64, rec: &mut Recorder) {
         book::run_book_case("C03", bookgen::P_INFER, ctx, idx, rec);
@@ -34,6 +34,6 @@ impl Check for C03 {
         ]
     }
     fn min_nontrivial(&self, tier: Tier) -> u64 {
-        tier.pick(50_000, 2_000_000)
+        tier.pick(50_000, 4_000_000)
     }
 }
